@@ -13,7 +13,7 @@ from __future__ import annotations
 import random
 import re
 
-from .. import common, rt, corpus, gen_wide, tel
+from .. import common, rt, corpus, gen_wide, tel, harvest
 
 PROP = 'C06'
 MODULES = ['Cnl2aspModel.Props.C06']
@@ -247,6 +247,7 @@ def main(tier):
             run.violation(f'{kind}/{classify(r, msg)}', f'{kind}: {msg[:250]}', {'cnl': r['text'], 'program': r['program'], 'message': msg})
     run.coverage['program_stats'] = stats
     core_safety(run, rng, tier)
+    printer_layer(run, rng, tier, [j[0] for j in jobs])
     for r in results[-3:]:
         if 'program' in r:
             run.sample({'cnl': r['text'][:300], 'program': r['program'][:300]})
@@ -283,6 +284,193 @@ def core_safety(run, rng, tier):
                       {'cnl': sp.text(), 'program': r['program'], 'error': r['solver_error']})
             break
     run.coverage['core_programs_proved_safe_and_grounded'] = n
+
+
+# ---------------------------------------------------------------------------
+# printing layer (Asp/PrintProg.lean): random element trees built from the real classes
+# ---------------------------------------------------------------------------
+def random_encoding(rng):
+    """an ASPEncoding built directly from the real element classes: shapes the converter produces and neighbours of them"""
+    from cnl2asp.ASP_elements.asp_atom import ASPAtom
+    from cnl2asp.ASP_elements.asp_attribute import ASPAttribute, ASPValue
+    from cnl2asp.ASP_elements.asp_aggregate import ASPAggregate
+    from cnl2asp.ASP_elements.asp_conjunction import ASPConjunction
+    from cnl2asp.ASP_elements.asp_encoding import ASPEncoding
+    from cnl2asp.ASP_elements.asp_program import ASPProgram
+    from cnl2asp.ASP_elements.asp_operation import ASPOperation, ASPAngleOperation, ASPTemporalOperation
+    from cnl2asp.ASP_elements.asp_rule import ASPRule, ASPRuleHead, ASPWeakConstraint
+    from cnl2asp.ASP_elements.asp_temporal_formula import ASPTemporalFormula
+    from cnl2asp.specification.aggregate_component import AggregateOperation
+    from cnl2asp.specification.operation_component import Operators
+    vals = ['X', 'Y', 'Z1', '_', '1', '20', '"red"', '"new york"', 'kk', 'X+1', 'T..T+2', '1..5', 'CNT', 'ND_D']
+    names = ['node', 'edge', 'assigned_to', 'colour', 'gun', 'at']
+    ar = [Operators.SUM, Operators.DIFFERENCE, Operators.MULTIPLICATION, Operators.DIVISION]
+    cmp_ = [Operators.EQUALITY, Operators.INEQUALITY, Operators.GREATER_THAN, Operators.LESS_THAN, Operators.GREATER_THAN_OR_EQUAL_TO,
+            Operators.LESS_THAN_OR_EQUAL_TO]
+    tel1 = [Operators.PREVIOUS, Operators.WEAK_PREVIOUS, Operators.ALWAYS_BEFORE, Operators.EVENTUALLY_BEFORE, Operators.NEXT, Operators.WEAK_NEXT,
+            Operators.ALWAYS_AFTER, Operators.EVENTUALLY_AFTER, Operators.NEGATION]
+    tel2 = [Operators.CONJUNCTION, Operators.DISJUNCTION, Operators.LEFT_IMPLICATION, Operators.RIGHT_IMPLICATION, Operators.EQUIVALENCE,
+            Operators.TRIGGER, Operators.SINCE, Operators.PRECEDE, Operators.WEAK_PRECEDE, Operators.RELEASE, Operators.UNTIL, Operators.FOLLOW,
+            Operators.WEAK_FOLLOW]
+
+    def atom(marks=True, neg=True):
+        n = rng.choice([1, 1, 2, 2, 3])
+        kw = {}
+        if marks and rng.random() < 0.3:
+            kw[rng.choice(['is_before', 'is_after', 'is_initial', 'is_final'])] = True
+        if neg and rng.random() < 0.2:
+            kw['negated'] = True
+        return ASPAtom(rng.choice(names), [ASPAttribute(rng.choice(['id', 'name', 'value']), ASPValue(rng.choice(vals))) for _ in range(n)], **kw)
+
+    def arith(depth=0):
+        r = rng.random()
+        if depth > 1 or r < 0.5:
+            return ASPValue(rng.choice(vals[:5] + ['CNT']))
+        cls = ASPAngleOperation if rng.random() < 0.15 else ASPOperation
+        return cls(rng.choice(ar), *[arith(depth + 1) for _ in range(rng.choice([2, 2, 3]))])
+
+    def agg():
+        disc = [ASPAttribute('v', ASPValue(rng.choice(['X', 'V', 'D']))) for _ in range(rng.choice([1, 1, 2]))]
+        if rng.random() < 0.2:
+            disc.append(atom(False, False))
+        return ASPAggregate(rng.choice(list(AggregateOperation)), disc, ASPConjunction([atom(False) for _ in range(rng.choice([1, 2]))] +
+                                                                                       ([comparison(False)] if rng.random() < 0.3 else [])))
+
+    def comparison(with_agg=True):
+        r = rng.random()
+        if with_agg and r < 0.25:
+            ops = [agg(), arith(1)]
+            if rng.random() < 0.3:
+                ops.reverse()
+            return ASPOperation(rng.choice(cmp_), *ops)
+        if r < 0.35:
+            return ASPOperation(rng.choice(cmp_), arith(), arith(), arith())
+        cls = ASPAngleOperation if rng.random() < 0.1 else ASPOperation
+        return cls(rng.choice(cmp_), arith(), arith())
+
+    def tform(depth=0):
+        r = rng.random()
+        if depth > 1 or r < 0.4:
+            return atom(True, False)
+        if r < 0.7:
+            return ASPTemporalOperation(rng.choice(tel1), tform(depth + 1))
+        return ASPTemporalOperation(rng.choice(tel2), tform(depth + 1), tform(depth + 1))
+
+    def tel():
+        op = tform(0)
+        if not isinstance(op, ASPTemporalOperation):
+            op = ASPTemporalOperation(rng.choice(tel1), op)
+        return ASPTemporalFormula([op], rng.random() < 0.3)
+
+    def body():
+        out = []
+        for _ in range(rng.choice([0, 1, 2, 2, 3, 4])):
+            r = rng.random()
+            out.append(atom() if r < 0.55 else comparison() if r < 0.8 else tel())
+        return ASPConjunction(out)
+
+    enc = ASPEncoding()
+    for _ in range(rng.choice([0, 0, 1, 2])):
+        enc.add_constant((rng.choice(['kk', 'limit', 'maxN']), rng.choice(['', '3', '"rome"'])))
+    for pname in rng.sample(['', 'initial', 'dynamic', 'always', 'final'], rng.choice([1, 1, 2, 3])):
+        prog = ASPProgram(pname)
+        for _ in range(rng.choice([1, 2, 3, 4])):
+            r = rng.random()
+            if r < 0.15:
+                w = rng.choice(['1', 'X', '-CNT', 'V'])
+                disc = [ASPAttribute('v', ASPValue(rng.choice(['X', 'Y', 'X']))) for _ in range(rng.choice([0, 1, 2, 3]))]
+                prog.add_rule(ASPWeakConstraint(body(), w, rng.choice([1, 2, 3]), disc))
+            elif r < 0.35:
+                prog.add_rule(ASPRule(body=body(), head=[]))
+            elif r < 0.65:
+                heads = [ASPRuleHead(atom(True, False), ASPConjunction([atom(False) for _ in range(rng.choice([0, 0, 1, 2]))])) for _ in range(rng.choice([1, 1, 2]))]
+                lo = rng.choice([None, '0', '1', 'kk', ''])
+                hi = rng.choice([None, '1', '2', ''])
+                prog.add_rule(ASPRule(body=body(), head=heads, cardinality=(lo, hi)))
+            else:
+                heads = [ASPRuleHead(atom(True, False)) for _ in range(rng.choice([1, 1, 1, 2]))]
+                prog.add_rule(ASPRule(body=body(), head=heads))
+        enc.add_program(prog)
+    return enc
+
+
+def _print_job(text):
+    """real element tree of a specification, serialised, with the real printed text in both modes (in a worker)"""
+    from cnl2asp.utility.utility import Utility
+    try:
+        spec, enc, _ = harvest.parse_and_convert(text)
+    except BaseException as e:  # noqa
+        if isinstance(e, (KeyboardInterrupt, SystemExit)):
+            raise
+        return None
+    out = []
+    try:
+        j = harvest.encoding_to_json(enc)
+        for fn in (False, True):
+            pairs = harvest.encoding_name_pairs(enc) if fn else []
+            if pairs is None:
+                continue
+            Utility.PRINT_WITH_FUNCTIONS = fn
+            try:
+                real, rules = str(enc), [str(r) for _, r in harvest.rules_of(enc)]
+            finally:
+                Utility.PRINT_WITH_FUNCTIONS = False
+            out.append((dict(j, fn=fn, eqpairs=pairs), real, rules))
+    except BaseException as e:  # noqa
+        if isinstance(e, (KeyboardInterrupt, SystemExit)):
+            raise
+        return {'text': text, 'error': f'{type(e).__name__}: {e}'}
+    finally:
+        rt.reset_globals()
+    return {'text': text, 'cases': out}
+
+
+def printer_layer(run, rng, tier, texts):
+    """Asp/PrintProg.lean vs the real `__str__` methods: byte for byte, whole encodings and rule by rule, both printing modes, on
+    (a) the element trees of real compilations and (b) random trees built from the real element classes.  A mismatch is a broken
+    correspondence; the concrete failing input is then looked for with the solvers' parsers on the real text of the same tree."""
+    cases = []      # (origin, request, real text, real rules)
+    n_rand = 600 if tier == 'quick' else 6000
+    for i in range(n_rand):
+        enc = random_encoding(rng)
+        cases.append((f'random tree #{i}', dict(harvest.encoding_to_json(enc), fn=False, eqpairs=[]), str(enc),
+                      [str(r) for _, r in harvest.rules_of(enc)]))
+    n_real = 0
+    for r in rt.pmap(_print_job, texts, chunksize=2):
+        if not r:
+            continue
+        if 'error' in r:
+            run.note('element tree could not be serialised: ' + r['error'])
+            continue
+        for req, real, rules in r['cases']:
+            cases.append((r['text'], req, real, rules))
+            n_real += 1
+    try:
+        answers = common.run_model([('c06.print', c[1]) for c in cases])
+    except RuntimeError as e:
+        run.broke('corr', 'model driver (c06.print)', e)
+        return
+    n_rules = 0
+    broken = 0
+    for (origin, req, real, rules), a in zip(cases, answers):
+        run.count(('print', real), nontrivial=not origin.startswith('random'))
+        n_rules += len(rules)
+        if a.get('text') == real and a.get('rules') == rules:
+            continue
+        broken += 1
+        if broken > 3:
+            continue
+        diff = next(((x, y) for x, y in zip(rules, a.get('rules', [])) if x != y), (real[:400], str(a.get('text'))[:400]))
+        run.broke('corr', 'PrintProg.printEncoding vs the real __str__ of the element tree',
+                  {'origin': origin[:400], 'mode': 'function' if req['fn'] else 'default', 'real': diff[0], 'model': diff[1]})
+        # failing-input search: is the real text of this tree still a program the solver's parser accepts?
+        ok, msg = rt.clingo_parse(real)
+        if not ok:
+            run.violation(f'syntax/printer/{"random-tree" if origin.startswith("random") else "compiled"}',
+                          f'the real printer emits text the clingo parser rejects: {msg[:200]}',
+                          {'origin': origin, 'tree': req, 'program': real, 'message': msg})
+    run.coverage['printer_layer'] = {'random_trees': n_rand, 'compiled_trees_both_modes': n_real, 'rules_compared': n_rules,
+                                     'mismatches': broken}
 
 
 def classify(r, msg):
